@@ -487,6 +487,11 @@ def wl_live(ctx, rng):
         live = base.run_model(ctx, model, build=False)
         if live is None:
             return
+        if not np.all(np.isfinite(live['zb'])) or live['zb'][-1] > 2.0 * live['Rp']:
+            # the temperature written above made the atmosphere run away (top above two planetary radii): outside the
+            # quantifier, as in C01's re-run workload
+            ctx.event('domain-skip:perturbed-atmosphere-unbound')
+            return
         wn = live['wn']
         judge_components(ctx, model, contribs, ops, cias, spec, wn)
         base.oracle(ctx, live, spec)
